@@ -526,6 +526,12 @@ class Check:
             print("KNOWN-FINDING: property=%s %s (%d occurrence(s)) e.g. %s" %
                   (self.pid, key, v["count"], json.dumps(v["example"], default=str)[:300]))
         rc = 0
+        if not os.environ.get("VERIF_KEEP_REPLAY"):
+            for old_file in glob.glob(os.path.join(ROOT, "replay", self.pid + "-*.json")):
+                try:
+                    os.remove(old_file)
+                except OSError:
+                    pass
         if new:
             os.makedirs(os.path.join(ROOT, "replay"), exist_ok=True)
             for key, v, _ in new:
